@@ -22,6 +22,26 @@ CLAIMED = {
 }
 CLAIMED.update(json.load(open(os.path.join(V, "tools", "claimed_extra.json"))) if os.path.exists(os.path.join(V, "tools", "claimed_extra.json")) else {})
 
+ADD4 = {
+ "C01": " Round 4: calls whose value depends on the ambient time zone / locale / environment (datetime.fromtimestamp without tz, time.localtime, os.environ ...) are reported (HO.ambient).",
+ "C02": " Round 4: a counter record in its initial state (ChargerState / Base) is built only where the entity is constructed or extended; Base.has_available_stall truth table; both state slots tested in the generic transition; dynamic `**` field writes count for every closed writer set.",
+ "C03": " Round 4: drop_off_trip refuses for no other reason than a missing vehicle or a misplaced passenger (other direction of the iff); drop-off in every update whose path has not established that the vehicle left its trip; both state slots of exit / enter tested in the generic transition.",
+ "C04": " Round 4: both energy tallies start at zero at every Vehicle construction site; the consumption rate of a tabular powertrain is a value the table spans (np.interp, a table element, or an interpolation whose speed is boxed in by the table's ends).",
+ "C05": " Round 4: energy_gained / energy_dispensed / balance start at zero at every construction site of Vehicle / Station (base case of the conservation law).",
+ "C06": " Round 4: every travelling activity is entered only with a route checked to start at the vehicle (GD.START) and the validator accepts a non-empty route only if it does; the two halves of the traversal partition have a closed writer set; successor conditions are specialised to the hand-over's own predecessor; Base.has_available_stall truth table.",
+ "C07": " Round 4: the validator table treats atoms outside the specification as free (an extra accepted case is a violation, not a refusal); closed writer set of the traversal partition.",
+ "C08": " Round 4: `_replace(**computed)` / `Cls(**computed)` are writers of every field whose name occurs as a constant in that module.",
+ "C10": " Round 4: every path that builds a DispatchStationInstruction is judged (a memo / cache hit is a path of its own).",
+ "C11": " Round 4: the price rows read in one step are merged row by row into one accumulator by the per-row merge (any key-level merge of blocks is reported); the price setter is judged by effect.",
+ "C12": " Round 4: other direction of eligibility — a vehicle is turned away only for a stated reason, and the base-charging guard is exactly `at a base AND below the threshold` (truth table; the side of the threshold itself is not pinned); infinite-entry mask and bound update judged semantically.",
+ "C13": " Round 4: an empty route for distinct positions only when a step of the assembly failed (each deciding condition classified); search helpers of the network are followed; link table / KD-tree rules by syntax tree.",
+ "C16": " Round 4: values handed out by the road network's own structures (networkx returns its internal dictionaries) are tracked through locals, iteration and holder containers: any store into them outside __init__ is reported, temporary edits included.",
+ "C18": " Round 4: the hand-over of the head of the queue is a truth table over (vehicle, station, free plug): ChargingStation(own station, own plug) exactly when all three hold; grant conditions are specialised to a queued vehicle.",
+ "C20": " Round 4: the per-vehicle step of the driver phase hands on the state the driver's update produced whenever it produced one; closures created in a loop that outlive their iteration and read loop variables are reported (PY.late-binding, on every property's anchor files).",
+}
+TRUST = TRUST + (" Since round 4 the loader canonicalises spellings before analysis (hivecheck/canon.py: argument style of the pinned tree, walrus, chained _replace, library forms, moved functions put back) "
+                 "and the path enumerator splices the paths of functions the pinned tree does not have into their callers; both are behaviour-preserving by construction and part of the trusted base.")
+
 NA_REASON = "check not built yet in this round (DESIGN.md section 4 describes the planned static clauses); not claimed until built and validated both ways"
 
 m = {
@@ -40,6 +60,7 @@ for p in props:
     pid = p["id"]
     if pid in CLAIMED and os.path.exists(os.path.join(V, "hivecheck", "props", pid.lower() + ".py")):
         tech, text, ref = CLAIMED[pid]
+        text = text + ADD4.get(pid, "")
         m["checks"].append({
             "property_id": pid,
             "quick_cmd": f"./check {pid} --tier quick",
